@@ -247,4 +247,165 @@ theorem postProcess_eq_suggestions (senv : SpellEnv) (f : Spell.Fns) (dict : Lis
     · congr 2
     · congr 1
 
+
+/-! ## w26: the loop reports EXACTLY the word tokens its `continue` condition does not accept (C06 at sentence level)
+
+`SpellCheck::lint` is `for word in document.iter_words() { if accepted { continue }; … lints.push(Lint { span: word.span, .. }) }`:
+one lint per word token that is not accepted, on that token's span, in token order, nothing else. -/
+
+/-- the rule's own test for one token lying inside the text: a word token whose characters the `continue` condition rejects -/
+def flagged (senv : SpellEnv) (src : List Char) (t : Tok) : Bool :=
+  t.kind.isWord && !accepted (senv.data (textOf src t.span))
+
+/-- the lint the loop body pushes for a flagged token (`[]` stands for a search result that is never looked at: the search of a
+flagged word that panics ends the run) -/
+def lintAt (senv : SpellEnv) (src : List Char) (t : Tok) : RuleLint :=
+  spellLintOf senv t.span (textOf src t.span) (((senv.data (textOf src t.span)).suggest).getD [])
+
+theorem lintAt_span (senv : SpellEnv) (src : List Char) (t : Tok) : (lintAt senv src t).span = t.span := rfl
+
+/-- the loop body for a token inside the text, as one equation -/
+theorem spellTok_eq (senv : SpellEnv) (src : List Char) (t : Tok) (ht : TokIn src t) :
+    spellTok senv src t =
+      if flagged senv src t = true then
+        (match (senv.data (textOf src t.span)).suggest with
+         | none => .error .unwrapNone
+         | some _ => .ok [lintAt senv src t])
+      else .ok [] := by
+  simp only [spellTok, getContent_textOf src t ht, flagged, lintAt]
+  by_cases hw : t.kind.isWord = true
+  · by_cases ha : accepted (senv.data (textOf src t.span)) = true
+    · simp [hw, ha]
+    · have ha' : accepted (senv.data (textOf src t.span)) = false := by simpa using ha
+      simp only [hw, ha', Bool.not_true, Bool.false_eq_true, if_false, Bool.not_false, Bool.and_self, if_true]
+      cases (senv.data (textOf src t.span)).suggest <;> rfl
+  · have hw' : t.kind.isWord = false := by simpa using hw
+    simp [hw']
+
+/-- **the whole run, without any hypothesis on the dictionary**: on tokens inside the text the rule either returns, in token
+order, exactly the lints of the flagged tokens (and then the search of every flagged word returned), or it panics with the
+`unwrap` of the search of some flagged word -/
+theorem ruleSpellCheck_cases (senv : SpellEnv) (src : List Char) : ∀ (toks : List Tok), InText src toks →
+    (ruleSpellCheck senv src toks = .ok ((toks.filter (flagged senv src)).map (lintAt senv src)) ∧
+      ∀ t ∈ toks, flagged senv src t = true → (senv.data (textOf src t.span)).suggest ≠ none) ∨
+    (ruleSpellCheck senv src toks = .error .unwrapNone ∧
+      ∃ t ∈ toks, flagged senv src t = true ∧ (senv.data (textOf src t.span)).suggest = none)
+  | [], _ => Or.inl ⟨rfl, fun t ht => by cases ht⟩
+  | t :: ts, h => by
+    have ht := h t (List.mem_cons_self ..)
+    have ih := ruleSpellCheck_cases senv src ts (fun x hx => h x (List.mem_cons_of_mem _ hx))
+    simp only [ruleSpellCheck, perTok, collectE] at ih ⊢
+    rw [spellTok_eq senv src t ht]
+    by_cases hf : flagged senv src t = true
+    · simp only [hf, if_true]
+      cases hs : (senv.data (textOf src t.span)).suggest with
+      | none => exact Or.inr ⟨rfl, t, List.mem_cons_self .., hf, hs⟩
+      | some sg =>
+        simp only []
+        rcases ih with ⟨e, hall⟩ | ⟨e, x, hx, hfx, hsx⟩
+        · refine Or.inl ⟨by rw [e]; simp only [List.filter_cons_of_pos hf, List.map_cons, List.singleton_append], ?_⟩
+          intro x hx hfx
+          rcases List.mem_cons.mp hx with rfl | hx
+          · rw [hs]; exact Option.some_ne_none _
+          · exact hall x hx hfx
+        · exact Or.inr ⟨by rw [e], x, List.mem_cons_of_mem _ hx, hfx, hsx⟩
+    · have hf' : flagged senv src t = false := by simpa using hf
+      simp only [hf', Bool.false_eq_true, if_false]
+      rcases ih with ⟨e, hall⟩ | ⟨e, x, hx, hfx, hsx⟩
+      · refine Or.inl ⟨by rw [e]; simp only [List.filter_cons_of_neg hf, List.nil_append], ?_⟩
+        intro x hx hfx
+        rcases List.mem_cons.mp hx with rfl | hx
+        · exact absurd hfx hf
+        · exact hall x hx hfx
+      · exact Or.inr ⟨by rw [e], x, List.mem_cons_of_mem _ hx, hfx, hsx⟩
+
+/-- when the uncached search never panics on a flagged word: the result, as an equation -/
+theorem ruleSpellCheck_eq (senv : SpellEnv) (hs : SuggestOK senv) (src : List Char) (toks : List Tok) (h : InText src toks) :
+    ruleSpellCheck senv src toks = .ok ((toks.filter (flagged senv src)).map (lintAt senv src)) := by
+  rcases ruleSpellCheck_cases senv src toks h with ⟨e, _⟩ | ⟨_, t, _, hf, hn⟩
+  · exact e
+  · simp only [flagged, Bool.and_eq_true, Bool.not_eq_true'] at hf
+    exact absurd hn (hs _ hf.2)
+
+/-- a run that returned, returned exactly the lints of the flagged tokens -/
+theorem ruleSpellCheck_eq_of_ok (senv : SpellEnv) (src : List Char) (toks : List Tok) (h : InText src toks) (ls : List RuleLint)
+    (e : ruleSpellCheck senv src toks = .ok ls) : ls = (toks.filter (flagged senv src)).map (lintAt senv src) := by
+  rcases ruleSpellCheck_cases senv src toks h with ⟨e', _⟩ | ⟨e', _⟩
+  · rw [e'] at e; cases e; rfl
+  · rw [e'] at e; cases e
+
+/-! ### counting the lints on one span -/
+
+/-- in a list of tokens with pairwise different spans, the sub-list picked by `p` holds exactly one token with the span of a
+member `t` that `p` picks and none with the span of a member it does not pick -/
+theorem count_span_filter (p : Tok → Bool) : ∀ (toks : List Tok), toks.Pairwise (fun a b => a.span ≠ b.span) → ∀ t ∈ toks,
+    ((toks.filter p).filter (fun x => decide (x.span = t.span))).length = if p t = true then 1 else 0
+  | [], _, t, ht => by cases ht
+  | a :: r, hp, t, ht => by
+    obtain ⟨h1, h2⟩ := List.pairwise_cons.mp hp
+    rcases List.mem_cons.mp ht with rfl | ht'
+    · have hr : (r.filter p).filter (fun x => decide (x.span = t.span)) = [] := by
+        rw [List.filter_eq_nil_iff]
+        intro x hx
+        have := h1 x (List.mem_filter.mp hx).1
+        simpa using fun e => this e.symm
+      by_cases hpa : p t = true
+      · rw [List.filter_cons_of_pos hpa, List.filter_cons_of_pos (by simp), hr, if_pos hpa]; rfl
+      · rw [List.filter_cons_of_neg hpa, hr, if_neg hpa]; rfl
+    · have ih := count_span_filter p r h2 t ht'
+      have hne : a.span ≠ t.span := h1 t ht'
+      by_cases hpa : p a = true
+      · rw [List.filter_cons_of_pos hpa, List.filter_cons_of_neg (by simpa using hne)]; exact ih
+      · rw [List.filter_cons_of_neg hpa]; exact ih
+
+/-- the lints of the flagged tokens lying on a given span are as many as the flagged tokens with that span -/
+theorem count_lints_on_span (senv : SpellEnv) (src : List Char) (toks : List Tok) (sp : Span) :
+    (((toks.filter (flagged senv src)).map (lintAt senv src)).filter (fun l => decide (l.span = sp))).length =
+      ((toks.filter (flagged senv src)).filter (fun t => decide (t.span = sp))).length := by
+  rw [List.filter_map, List.length_map]
+  rfl
+
+/-- tokens that tile a stretch of text lie inside it, are not empty and have pairwise different spans -/
+theorem tiles_spans_distinct : ∀ (toks : List Tok) (a b : Nat), Tiles toks a b →
+    (∀ t ∈ toks, a ≤ t.span.start ∧ t.span.start < t.span.stop ∧ t.span.stop ≤ b) ∧
+      toks.Pairwise (fun x y => x.span ≠ y.span)
+  | [], _, _, _ => ⟨fun t ht => (by cases ht), List.Pairwise.nil⟩
+  | t :: ts, a, b, h => by
+    obtain ⟨h1, h2, h3⟩ := h
+    obtain ⟨ih1, ih2⟩ := tiles_spans_distinct ts t.span.stop b h3
+    have hle : t.span.stop ≤ b := by
+      cases ts with
+      | nil => exact Nat.le_of_eq h3
+      | cons u us => have := ih1 u (List.mem_cons_self ..); omega
+    refine ⟨?_, List.pairwise_cons.mpr ⟨?_, ih2⟩⟩
+    · intro x hx
+      rcases List.mem_cons.mp hx with rfl | hx
+      · omega
+      · have := ih1 x hx; omega
+    · intro x hx e
+      have := ih1 x hx
+      rw [← e] at this
+      omega
+
+theorem inText_of_tiles (src : List Char) (toks : List Tok) (h : Tiles toks 0 src.length) : InText src toks := by
+  intro t ht
+  have := (tiles_spans_distinct toks 0 src.length h).1 t ht
+  exact ⟨by omega, this.2.2⟩
+
+/-! ### a `SpellEnv` whose accept / flag answers are those of a `Spell` dictionary -/
+
+/-- the `continue` condition of `senv` is `Spell.accept` over `dict` for every word (whatever the suggestions are) -/
+def FaithfulTo (senv : SpellEnv) (f : Spell.Fns) (dict : List Spell.Entry) : Prop :=
+  ∀ w, accepted (senv.data w) = Spell.accept f dict w
+
+/-- the `SpellEnv` built from a `Spell` dictionary (`dataOf`) is faithful to it -/
+theorem faithfulTo_dataOf (f : Spell.Fns) (dict : List Spell.Entry) (sugg : List Char → Option (List (List Char)))
+    (isUpper : Char → Bool) (up : Char → Char) : FaithfulTo ⟨dataOf f dict sugg, isUpper, up⟩ f dict :=
+  fun w => accepted_dataOf f dict sugg w
+
+/-- under `FaithfulTo` the rule's test on a token is `Spell.accept` on the token's characters -/
+theorem flagged_faithful (senv : SpellEnv) (f : Spell.Fns) (dict : List Spell.Entry) (hf : FaithfulTo senv f dict)
+    (src : List Char) (t : Tok) : flagged senv src t = (t.kind.isWord && !Spell.accept f dict (textOf src t.span)) := by
+  simp only [flagged, hf _]
+
 end Harper.SpellRule
